@@ -281,11 +281,22 @@ def part_fd(sh, res):
             f.write(b'a,b\n\xff,c\n')
         scen.append(('io: undecodable input', 'select a1', bad, po))
         scen.append(('io: undecodable join', 'select a1 join bad.csv on a1 == b1', p1, po))
+        rc = tree.csvmod()
+        import builtins
+        opened = []
+
+        def tracking_open(*a, **kw):
+            f = builtins.open(*a, **kw)
+            opened.append(f)
+            return f
+        rc.open = tracking_open          # the module's own name lookup finds this before the builtin: every file the front-end opens is recorded
         for label, text, pin, pout in scen:
             for with_headers in (False, True):
                 gc.collect()
+                del opened[:]
                 before = fd_snapshot()
                 err = None
+                during = None
                 try:
                     with core.watchdog(10):
                         rb.query_csv(text, pin, ',', 'quoted', pout, ',', 'quoted', 'utf-8', [], with_headers)
@@ -293,8 +304,9 @@ def part_fd(sh, res):
                     if isinstance(e, (KeyboardInterrupt, SystemExit)):
                         raise
                     err = type(e).__name__
-                gc.collect()
-                after = fd_snapshot()
+                    during = fd_snapshot()      # taken while the traceback still pins the frames: nothing has been reclaimed by the interpreter yet
+                still_open = [getattr(f, 'name', '?') for f in opened if not f.closed]
+                after = during if during is not None else fd_snapshot()
                 res.evaluations += 1
                 res.traces += 1
                 res.states += 1
@@ -305,10 +317,20 @@ def part_fd(sh, res):
                     res.nontrivial += 1
                     res.feat('fd_error_paths')
                 leaked = {k: v for k, v in after.items() if k not in before and scratch in v}
-                if leaked:
-                    res.violation('file-left-open', {'kind': 'fd', 'scenario': label, 'query': text, 'with_headers': with_headers}, 'no new descriptors', {'leaked': sorted(leaked.values()), 'outcome': err})
+                if leaked or still_open:
+                    res.violation('file-left-open', {'kind': 'fd', 'scenario': label, 'query': text, 'with_headers': with_headers}, 'every opened file closed, no new descriptors',
+                                  {'not_closed': [os.path.basename(str(n)) for n in still_open], 'descriptors': sorted(os.path.basename(v) for v in leaked.values()), 'outcome': err})
+                for f in opened:
+                    try:
+                        f.close()
+                    except Exception:
+                        pass
         res.sample({'fd_scenarios': len(scen) * 2})
     finally:
+        try:
+            del tree.csvmod().open
+        except Exception:
+            pass
         shutil.rmtree(scratch, ignore_errors=True)
 
 
